@@ -154,6 +154,11 @@ class OpsMixin:
             x, y = to_term(a, "obj"), to_term(b, "obj")
             t = (x == y) if op is ast.Eq else (x != y)
             return [(st, Sym(t, "bool"))]
+        h = self.specs.get("compare_obj")
+        if h is not None and "obj" in (ka, kb):
+            r = h(self, st, [op, a, b], {}, node)
+            if r is not None:
+                return r
         raise Unsupported(f"comparison {op.__name__} on {ka},{kb}", node)
 
     def identical(self, st, a, b):
@@ -446,6 +451,10 @@ class OpsMixin:
                 return [(st, fn(*args, **kwargs))]
             except Exception as ex:
                 return raise_(st, type(ex), *ex.args, node=node)
+        if self.host_pure(fn) and self.specs.get("pure_builtin_obj") is not None:
+            r = self.specs["pure_builtin_obj"](self, st, [fn] + list(args), kwargs, node)
+            if r is not None:
+                return r
         if self.on_unknown_call is not None:
             r = self.on_unknown_call(self, st, fn, args, kwargs, node)
             if r is not None:
